@@ -37,6 +37,8 @@ def cases(draw):
         case = draw(gen.with_multi_config(case))
     if draw(st.integers(0, 3)) == 0:
         case = draw(mutate.invalid_config(case))
+    if draw(st.integers(0, 4)) == 0:
+        case['uses_as_objects'] = True   # root = Config(data=...) whose `uses` holds Config objects (where the tree allows)
     return case
 
 
